@@ -25,6 +25,7 @@ package main
 //@   propagates all   [C15] [C08]
 //
 //@ func diffDoc(dst, src) (res, err)
+//@   propagates all   [C08]
 //@   property C15
 //@   requires (plainT (Document.Data dst))
 //@   ensures (not (isErr err))
@@ -32,6 +33,7 @@ package main
 //@   ensures (=> ((_ is VMap) res) (= (select (mc res) "$match") (VMap emptyM)))                              [C15]
 //
 //@ func diff(dst, src) (res, err)
+//@   propagates all   [C08]
 //@   requires (plainT dst)
 //@   ensures (not (isErr err))
 //@   ensures (=> (not (kindBad dst src)) (=> (= res VNil) (= dst src)))                                       [C15]
@@ -41,6 +43,7 @@ package main
 //@   decreases (rank dst) 2
 //
 //@ func diffMap(dst, src) (res, err)
+//@   propagates all   [C08]
 //@   requires ((_ is VMap) dst) (plainT dst)
 //@   ensures (not (isErr err))
 //@   ensures (=> (not (kindBad dst src)) (=> (= res VNil) (= dst src)))                                       [C15]
@@ -50,6 +53,7 @@ package main
 //@   decreases (rank dst) 1
 //
 //@ func diffMapMap(dst, src) (res, err)
+//@   propagates all   [C08]
 //@   requires ((_ is VMap) dst) ((_ is VMap) src) (plainT dst)
 //@   ensures (not (isErr err))
 //@   ensures (=> (not (kindBad dst src)) (=> (= res VNil) (= dst src)))                                       [C15]
@@ -74,6 +78,7 @@ package main
 //@                  (ite (and (select visited j) (= (select (mc dst) j) VAbsent)) (VStr "$delete") (select (mc ret@loop) j))))
 //
 //@ func diffList(dst, src) (res, err)
+//@   propagates all   [C08]
 //@   requires ((_ is VList) dst) (plainT dst)
 //@   ensures (not (isErr err))
 //@   ensures (=> (not (kindBad dst src)) (=> (= res VNil) (= dst src)))                                       [C15]
@@ -82,6 +87,7 @@ package main
 //@   ensures (=> (= dst src) (= res VNil))                                                                    [C15]
 //
 //@ func diffListList(dst, src) (res, err)
+//@   propagates all   [C08]
 //@   uses appNil, snocApp, keepNotInAll, allInRefl, replaceFallback
 //@   requires (plainT dst)
 //@   ensures (not (isErr err))
